@@ -10,7 +10,7 @@
    is: [C04_refuted].  What holds is [C04_partial]: every crash point outside the two
    truncate->write windows.  The refuting crash is replayed on the real binary by the harness
    (VERIF_CRASH=update.truncated:n); see known_findings.json. *)
-From Receptor Require Import Model.Crash Proofs.Fs Proofs.Status Proofs.Crash.
+From Receptor Require Import Model.Crash Model.CrashMirror Proofs.Fs Proofs.Status Proofs.Crash Proofs.CrashMirror.
 Open Scope N_scope.
 
 (* ---------- the model's files are the file system's ---------- *)
@@ -179,6 +179,31 @@ Theorem C04_scan_stop_at_first_failure_refuted : forall fails types n1 n2 e x,
   dlookup n2 (scan_dir types [(n1, e); (n2, DUnit x)]) = Some (scan_entry types (DUnit x)).
 Proof. exact scan_stop_refuted_thm. Qed.
 Print Assumptions C04_scan_stop_at_first_failure_refuted.
+
+(* Remote work, the output behind the record: a started remote unit with an intact record in ANY
+   state (Succeeded and Failed included) and ANY number of output bytes stored is monitored again
+   after the restart; its record is answered unchanged and, the executing node holding the
+   output, `work results` ends with everything up to the recorded size. *)
+Theorem C04_output_behind_record_recovered : forall types x s,
+  uf_dir x = true -> uf_status x = Some (encode s) ->
+  kind_of types (s_wtype s) = KRemote -> started s = true ->
+  let v := snd (recover types x) in
+  v_listed v = true /\ v_status v = s /\ v_monitored v = true /\
+  forall stored remote_len, s_size s <= remote_len ->
+    results_end v (stored_in_the_end v stored remote_len) = true.
+Proof. exact output_behind_record_recovered_thm. Qed.
+Print Assumptions C04_output_behind_record_recovered.
+
+(* ... whereas the command unit's rule (a complete unit is not monitored again) on a remote unit
+   leaves fewer bytes than recorded for ever: `work results` never ends *)
+Theorem C04_remote_skip_complete_refuted : forall types x s stored remote_len,
+  uf_dir x = true -> uf_status x = Some (encode s) -> st_complete (s_state s) = true ->
+  kind_of types (s_wtype s) = KRemote -> started s = true -> stored < s_size s ->
+  let v := snd (recover_skip_complete types x) in
+  v_status v = s /\ stored_in_the_end v stored remote_len = stored /\
+  results_end v (stored_in_the_end v stored remote_len) = false.
+Proof. exact skip_complete_refuted_thm. Qed.
+Print Assumptions C04_remote_skip_complete_refuted.
 
 (* the hypotheses of C04_partial are satisfiable by a non-trivial history: the finished unit of
    the refutation, the same operation of the daemon, killed one step later (after the rewrite) *)
